@@ -286,3 +286,32 @@ func twoRolesApp(t *tape.Tape) *app.App {
 	a.Index()
 	return a
 }
+
+// langPagedApp: a paginated node whose browse labels are translated to something much longer, and a
+// node that switches the language (selectors: 1 -> the paginated node, 2 -> the switch, 0 -> back,
+// 11/22 -> next/previous).
+func langPagedApp(t *tape.Tape) *app.App {
+	t.Begin("langpaged")
+	defer t.End()
+	a := &app.App{Root: "root", Labels: map[string]map[string]string{}, Langs: []string{"nor"}}
+	rows := make([]int, t.Range(6, 14))
+	for i := range rows {
+		rows[i] = t.Range(2, 9)
+	}
+	a.Ext = append(a.Ext,
+		&app.ExtSym{Name: "sx", Size: 0, Script: []app.ExtBehav{{Sink: true, Rows: rows}}},
+		&app.ExtSym{Name: "sl", Size: 8, Script: []app.ExtBehav{{Len: -1, Lang: "nor", Set: []uint32{7}}}}) // 7 = LANG
+	a.Labels["ln"] = map[string]string{"": "nx", "nor": "neste side " + strings.Repeat("e", t.Range(0, 12))}
+	a.Labels["lp"] = map[string]string{"": "pv", "nor": "forrige side " + strings.Repeat("e", t.Range(0, 12))}
+	a.Nodes = append(a.Nodes, &app.Node{Name: "root", Kind: app.KMenu, Tpl: map[string]string{"": "@root|pick$", "nor": "@root~nor|velg$"}, Code: []app.Inst{
+		{Op: app.MOUT, A: "la", B: "1"}, {Op: app.MOUT, A: "lb", B: "2"}, {Op: app.HALT},
+		{Op: app.INCMP, A: "np", B: "1"}, {Op: app.INCMP, A: "nl", B: "2"}}})
+	a.Nodes = append(a.Nodes, &app.Node{Name: "np", Kind: app.KMenu, Tpl: map[string]string{"": "@np| S<<{{.sx}}>>$"}, Code: []app.Inst{
+		{Op: app.LOAD, A: "sx", N: 0}, {Op: app.MAP, A: "sx"}, {Op: app.MOUT, A: "lc", B: "0"}, {Op: app.MNEXT, A: "ln", B: "11"}, {Op: app.MPREV, A: "lp", B: "22"},
+		{Op: app.HALT}, {Op: app.INCMP, A: "_", B: "0"}, {Op: app.INCMP, A: ">", B: "11"}, {Op: app.INCMP, A: "<", B: "22"}}})
+	a.Nodes = append(a.Nodes, &app.Node{Name: "nl", Kind: app.KMenu, Tpl: map[string]string{"": "@nl|switched$", "nor": "@nl~nor|byttet$"}, Code: []app.Inst{
+		{Op: app.LOAD, A: "sl", N: 8}, {Op: app.MOUT, A: "lc", B: "0"}, {Op: app.HALT}, {Op: app.INCMP, A: "_", B: "0"}}})
+	a.Nodes = append(a.Nodes, &app.Node{Name: "_catch", Kind: app.KCatch, Tpl: map[string]string{"": "@_catch|oops$"}, Code: []app.Inst{{Op: app.HALT}, {Op: app.MOVE, A: "_"}}})
+	a.Index()
+	return a
+}
